@@ -11,7 +11,7 @@ PID = 'C15'
 TAGS = ['log', 'now', 'ret', 'caught']
 RULE = ('runs with 1-4 root activities (each starting with a log), some returning values (incl. falsy 0), some raising, some '
         'blocking for ever; nested `usim.run()` calls from inside activities with clock probes before/after; different start '
-        'times; every scenario is a separate run() on the same thread (successful and failing runs alternate); thorough tier: '
+        'times; every fifth run is started with till=T; every scenario is a separate run() on the same thread (successful and failing runs alternate); thorough tier: '
         '8 scenarios at a time are additionally run concurrently in 8 real threads and each trace must equal its sequential '
         'trace; non-trivial = a nested run, a returned value or an escaping exception')
 
@@ -32,6 +32,24 @@ def scenario(rng):
     return sc
 
 
+def till_scenario(rng):
+    """the same kind of run started with `till=T`: it ends when T is reached although activities could go on"""
+    # (no nested runs here: the judge of the `till` clause reads every event's time against the one clock)
+    profile = dict(PROFILE, nested=False, weights=dict(PROFILE['weights'], nestedrun=0))
+    sc = gen.gen_scenario(rng, profile)
+    for i, r in enumerate(sc[-1][1:]):
+        r.insert(1, ['log', 9000 + i])
+        if r[-1][0] == 'ret':
+            r[-1][1] = rng.choice([0, 0, 1, 5])
+    start = next(f[1] for f in sc if isinstance(f, list) and f and f[0] == 'start')
+    i = next(k for k, f in enumerate(sc) if isinstance(f, list) and f and f[0] == 'start')
+    return sc[:i + 1] + [['till', start + rng.choice([0, F(1, 2), 1, 2, 3])]] + sc[i + 1:]
+
+
+def till_of(sc):
+    return next((f[1] for f in sc if isinstance(f, list) and f and f[0] == 'till'), None)
+
+
 def start_of(sc):
     for f in sc[1:]:
         if f[0] == 'start':
@@ -48,11 +66,15 @@ def run(tier, seed, drv, scenarios=None):
     st = msuite.Suite(PID, drv, 'C15', TAGS)
     st.res.rule = RULE
     n = 200 if tier == 'quick' else 5000
-    scs = scenarios if scenarios is not None else [scenario(rng_for(seed, PID, i)) for i in range(n)]
+    scs = scenarios if scenarios is not None else [(till_scenario if i % 5 == 4 else scenario)(rng_for(seed, PID, i)) for i in range(n)]
     traces = []
     for sc in scs:
         st.judge_params = start_of(sc)
-        impl = st.check(sc, nontrivial=nontrivial)
+        t = till_of(sc)
+        # with `till`, the root activities become tasks of run()'s own until-scope: a returned value is then dropped
+        # silently and failures arrive wrapped in Concurrent (known finding F16)
+        impl = st.check(sc, nontrivial=nontrivial, judge_extra=[('C07till', dsl.t2s(t) + ' user-errors')] if t is not None else None,
+                        refine=lambda msg, _impl, _model, t=t: {'till': t is not None})
         traces.append(msuite.obs_line(impl))
     if tier == 'thorough' and scenarios is None:
         # real threads: each simulation must behave exactly as when it runs alone
